@@ -19,6 +19,7 @@ import HipVerif.Props.C11Core
 import HipVerif.Props.C12
 import HipVerif.Props.C13
 import HipVerif.Props.C13Slots
+import HipVerif.Props.C13Api
 import HipVerif.Props.C14
 import HipVerif.Props.C15
 import HipVerif.Props.C16
